@@ -72,6 +72,7 @@ func c18Check(run *ev.Run, table []string, hosts []string, repeats int, rebuilds
 			}
 			ident[fmt.Sprintf("%s nh%d.verif.test %d", protos[j%3], j, 6000+j)] = p
 		}
+		firstOf := map[string]string{}
 		for _, h := range hosts {
 			allowed := c18Allowed(table, h)
 			first := "\x00"
@@ -120,7 +121,33 @@ func c18Check(run *ev.Run, table []string, hosts []string, repeats int, rebuilds
 			if sig == "multi-wildcard2" && run.WantSample() {
 				run.Sample(map[string]any{"table": table, "host": h, "answered": first, "repeats": repeats})
 			}
+			firstOf[h] = first
 		}
+		// the answer must not depend on what was looked up before: every ordered pair (a, b)
+		// of hosts as the history a, b, a on the same table object
+		answer := func(h string) string {
+			proto, host, port, err := pcr.FindRoute(h)
+			if err != nil {
+				return ""
+			}
+			return ident[fmt.Sprintf("%s %s %d", proto, host, port)]
+		}
+		for _, a := range hosts {
+			if rb != 0 {
+				break // (one insertion order is enough for this phase)
+			}
+			for _, b := range hosts {
+				if a == b {
+					continue
+				}
+				r1, r2, r3 := answer(a), answer(b), answer(a)
+				if r1 != firstOf[a] || r2 != firstOf[b] || r3 != firstOf[a] {
+					run.Violation("the answer for a host depends on which host was looked up before", map[string]any{"table": table, "history": []string{a, b, a}, "answers": []string{r1, r2, r3}, "answers_alone": []string{firstOf[a], firstOf[b], firstOf[a]}})
+					return
+				}
+			}
+		}
+		run.EvalN(fmt.Sprintf("history|%v", table), int64(3*len(hosts)*(len(hosts)-1)))
 	}
 }
 
@@ -320,6 +347,32 @@ func TestVerifC18(t *testing.T) {
 				}
 			}
 			run.EvalN(fmt.Sprintf("yaml|%d|%s", i, h), 20)
+			// the same lookup as a request meets it: To host -> next hop through the proxy's
+			// own routing step (no Route header), in several spellings of the To header
+			if first != "\x00" {
+				px := &Proxy{preConfigRoute: pcr}
+				for vi, to := range []string{"<sip:bob@" + h + ">", "\"B\" <sip:" + h + ";user=phone>;tag=x", "sip:carol@" + h, "<sip:dave@" + h + ":5080;transport=tcp>"} {
+					raw := "MESSAGE sip:x@foreign.example SIP/2.0\r\nVia: SIP/2.0/UDP 192.0.2.1:5060;branch=z9hG4bKc18\r\nMax-Forwards: 70\r\nFrom: <sip:a@b>;tag=1\r\nTo: " + to + "\r\nCall-ID: c18@vf\r\nCSeq: 1 MESSAGE\r\nContent-Length: 0\r\n\r\n"
+					msg, err := vfParseUDP([]byte(raw))
+					if err != nil {
+						run.Violation("harness: request not decodable", map[string]any{"raw": raw})
+						break
+					}
+					host, port, proto, err := px.getNextRequestHop(msg)
+					ans := ""
+					if err == nil {
+						ans = owner[fmt.Sprintf("%s %s %d", proto, host, port)]
+						if ans == "" {
+							ans = "?"
+						}
+					}
+					if ans != first {
+						run.Violation("the routing step of a request answers differently from the table lookup for the same To host", map[string]any{"yaml": y.String(), "to": to, "host": h, "table_lookup_entry": first, "request_path_entry": ans})
+						break
+					}
+					run.Eval(fmt.Sprintf("yaml-request|%d|%s|%d", i, h, vi))
+				}
+			}
 		}
 		if run.WantSample() && nent > 1 {
 			run.Sample(map[string]any{"yaml_route_table": y.String()})
